@@ -219,7 +219,9 @@ func (s *clientSocket) tryUpgradeTo(t ClientTransport, c *transport.Callbacks) (
 			}
 
 			once.Do(func() { close(done) })
-			s.finishUpgradeTo(t, c)
+			// Not on this goroutine: it is the new transport's reader, and it has to
+			// notice if that transport is closed while finishUpgradeTo waits.
+			go s.finishUpgradeTo(t, c)
 		default:
 			t.Close()
 			s.onError(wrapInternalError(fmt.Errorf("upgrade failed: invalid packet received: packet type: %d", packet.Type)))
@@ -269,7 +271,15 @@ func (s *clientSocket) finishUpgradeTo(t ClientTransport, c *transport.Callbacks
 		return
 	}
 
-	c.Set(s.onPacket, s.onTransportClose)
+	// The lock below can take a while (a Send holds it for the duration of its request).
+	// If the new transport is closed in the meantime, for instance because the server's
+	// upgrade timeout has expired, the upgrade must not be completed.
+	closedEarly := make(chan struct{})
+	closedEarlyOnce := new(sync.Once)
+	c.Set(s.onPacket, func(name string, err error) {
+		closedEarlyOnce.Do(func() { close(closedEarly) })
+		s.onTransportClose(name, err)
+	})
 
 	s.transportMu.Lock()
 	defer s.transportMu.Unlock()
@@ -280,6 +290,10 @@ func (s *clientSocket) finishUpgradeTo(t ClientTransport, c *transport.Callbacks
 		// upgrade now would leave a transport behind that keeps answering the
 		// server's pings for a socket that is closed.
 		t.Close()
+		return
+	case <-closedEarly:
+		t.Close()
+		s.onError(fmt.Errorf("eio: upgrade failed: transport closed before the upgrade was completed"))
 		return
 	default:
 	}
